@@ -3,8 +3,9 @@
    sumor -> OCaml types; fst/snd/andb/orb/negb inlined).  nat, positive, N, Z stay inductive. *)
 Require Extraction.
 Require Import ExtrOcamlBasic.
-From MD Require Import Bytes Generated DecodeDefs HeaderDefs.
+From MD Require Import Bytes Generated DecodeDefs HeaderDefs MimeDefs.
 Extraction "mdmodel.ml" Bytes.cview DecodeDefs.base64_decode_raw DecodeDefs.base64_decode
   DecodeDefs.quoted_printable_decode DecodeDefs.rfc2047_decode
   HeaderDefs.parse_message HeaderDefs.get_header HeaderDefs.set_header HeaderDefs.message_write
-  HeaderDefs.searchheader.
+  HeaderDefs.searchheader
+  MimeDefs.get_attachments MimeDefs.get_body MimeDefs.decode_body.
